@@ -57,6 +57,10 @@ def catalogue(cfg):
     for kind in REAL_KINDS:
         out.append(("real-cbc", {"kind": kind}))
     out.append(("none", {"kind": "ok"}))
+    # transient failures: the back-end fails once and would succeed if asked again
+    transient = [("sim-api", {"kind": "raise_before"}), ("sim-api", {"kind": "status_infeasible", "assign": "full"}),
+                 ("cbc-wrapper", {"kind": "exit_nonzero"}), ("cbc-wrapper", {"kind": "no_sol_file"}),
+                 ("highs-wrapper", {"kind": "exit_minus1"}), ("highs-wrapper", {"kind": "timelimit_no_solution"})]
     steps = []
     for via in ("property", "argument"):
         for backend, fault in out:
@@ -71,6 +75,10 @@ def catalogue(cfg):
                 step["default"] = cfg.choice(["none", "sim-api", "sim-api"])
                 step["default_fault"] = second_choice_fault(cfg)
             steps.append(step)
+        for backend, fault in transient:
+            f = dict(fault, tie=cfg.randrange(64), partial=cfg.randrange(1 << 16), exc=cfg.choice(["message", "noargs", "subclass"]))
+            steps.append({"backend": backend, "via": via, "fault": f, "fault_then": {"kind": "ok", "tie": cfg.randrange(64)},
+                          "default": "none"})
     return steps
 
 
@@ -152,6 +160,10 @@ def gen_run(seed, tier, i):
                 "fault": fault, "default": s_cfg.choice(["none", "sim-api"])}
         if backend == "highs-wrapper":
             step["default_fault"] = second_choice_fault(s_fault)
+        if len(kinds) > 1 and s_fault.random() < 0.3:
+            then = s_fault.choice(["ok", "ok"] + [k for k in kinds[1:] if k not in ("not_executable", "vanishes_after_lookup")])
+            step["fault_then"] = {"kind": then, "tie": s_fault.randrange(64), "partial": s_fault.randrange(1 << 16),
+                                  "assign": s_fault.choice(API_ASSIGN), "exc": s_fault.choice(["message", "noargs", "subclass"])}
         if op == "mapping_extract" and s_ops.random() < 0.6:
             op = step["op"] = "mapping_dot_bracket"  # the full entry point is ~50x dearer: keep it rare
         if op.startswith("mapping_"):
@@ -254,6 +266,10 @@ def shrink_candidates(run, v):
         yield _with_step(run, focus, dict(step, via="argument"))
     if step.get("fault", {}).get("tie"):
         yield _with_step(run, focus, dict(step, fault=dict(step["fault"], tie=0)))
+    if step.get("fault_then"):
+        yield _with_step(run, focus, {k: v for k, v in step.items() if k != "fault_then"})
+    if step.get("default_fault"):
+        yield _with_step(run, focus, {k: v for k, v in step.items() if k != "default_fault"})
     for t in shrink.structure_candidates(step["triples"]) if step.get("triples") else []:
         if t:
             yield _with_step(run, focus, dict(step, triples=t))
